@@ -59,7 +59,10 @@ where
     /// Returns the peak memory that's been used since startup or since
     /// `reset_max()` was called.
     pub fn get_max(&self) -> usize {
-        self.max.load(Ordering::Acquire)
+        // While `reset_max()` is in flight on another thread, `max` can
+        // for a moment be below what is allocated right now.
+        let max = self.max.load(Ordering::Acquire);
+        max.max(self.used.load(Ordering::Acquire))
     }
 
     /// Sets the maximum amount of memory that can be used. This should
